@@ -62,6 +62,9 @@ func (n *c07node) arg() interface{} {
 		case "#s":
 			return n.cs
 		}
+		if n.leaf[0] == '@' { // an explicit column node: Val(ColumnName)
+			return Val(types.ColumnName(n.leaf[1:]))
+		}
 		return types.ColumnName(n.leaf)
 	}
 	args := make([]interface{}, len(n.kids))
@@ -169,7 +172,11 @@ func (n *c07node) eval(cur map[string]vxCol, p int) c06cell {
 		case "#s":
 			return c06cell{typ: "string", s: n.cs}
 		}
-		c := c06get(cur[n.leaf], p)
+		name := n.leaf
+		if name[0] == '@' {
+			name = name[1:]
+		}
+		c := c06get(cur[name], p)
 		if c.typ == "enum" {
 			c.typ = "string"
 		}
@@ -283,5 +290,36 @@ func VX_C07_errors() {
 	r := f.Eval("z", ex)
 	vx.Check(r.Err != nil, "invalid expression is reported through Err")
 	vx.Check(r.Len() == -1, "failed frame exposes no rows")
+	vx.Reach("end")
+}
+
+// VX_C07_ctx: evaluation contexts are independent of each other.
+func VX_C07_ctx() {
+	P := 2
+	names := []string{"a"}
+	cols := []vxCol{vxMakeColLite("int", P)}
+	ix := []uint32{1, 0}
+	f := vxFrame(names, cols, ix)
+	ctx1 := eval.NewDefaultCtx()
+	ctx1.SetFunc("double", func(x int) int { return vx.UFInt("dbl", x) })
+	ctx1.SetFunc("+", func(x, y int) int { return vx.UFInt("myplus", x, y) })
+	// the registering context sees its functions
+	r1 := f.Eval("z", Expr("double", types.ColumnName("a")), eval.EvalContext(ctx1))
+	vx.Check(r1.Err == nil, "registered function is found in its own context")
+	// the default context and a fresh context do not
+	r2 := f.Eval("z", Expr("double", types.ColumnName("a")))
+	vx.Check(r2.Err != nil, "a function registered in one context is unknown to the default context")
+	r3 := f.Eval("z", Expr("double", types.ColumnName("a")), eval.EvalContext(eval.NewDefaultCtx()))
+	vx.Check(r3.Err != nil, "a function registered in one context is unknown to a fresh context")
+	// an overridden builtin stays overridden only there
+	c := vx.Int()
+	r4 := f.Eval("z", Expr("+", types.ColumnName("a"), c))
+	vx.Check(r4.Err == nil, "builtin + in the default context")
+	if r4.Err == nil {
+		v := r4.MustIntView("z")
+		for row := 0; row < 2; row++ {
+			vx.Check(v.ItemAt(row) == cols[0].i[ix[row]]+c, "builtin + is still addition in the default context")
+		}
+	}
 	vx.Reach("end")
 }
